@@ -22,6 +22,8 @@ def build(case):
     sp = cls(Empirical1D, points=pts, lookup_table=vals, keep_neg=case['keep_neg'], **kw)
     if case.get('force_extrap'):
         sp.force_extrapolation()
+    if case.get('scale') is not None:
+        sp = sp * float(unq(case['scale']))      # a composite: no longer itself a table
     return sp
 
 
@@ -143,6 +145,8 @@ def oracle(rep, case, out):
     p, v = ascending(case)
     if not case['keep_neg']:
         v = [max(y, 0) for y in v]
+    if case.get('scale') is not None and case.get('wl') is not None:
+        return      # a composite on caller-given wavelengths is judged by its samples at the would-be end points: model comparison only
     if o['same']:
         if not (v[0] == 0 and v[-1] == 0):
             rep.oracle_fail('taper:returned_self_with_nonzero_end', 'taper returned the spectrum itself', case, out)
@@ -244,6 +248,8 @@ def gen_cases(rng, count, nmax):
             c2['op'] = 'table_taper'
             c2.pop('force_extrap', None)
             c2['xs'] = qs(sorted(set([float(unq(x)) for x in case['xs']] + sorted(pts))))
+            if rng.random() < 0.3:
+                c2['scale'] = q(rng.choice([F(3), F(1, 2), F(-2), F(5, 4)]))
             if rng.random() < 0.25:
                 lo, hi = min(pts), max(pts)
                 wl = sorted({lo * (1 + (hi / lo - 1) * rng.random()) for _ in range(rng.randint(2, 6))})
@@ -258,7 +264,7 @@ def run(rep):
     cases = core.load_corpus('C03') + list(gen_cases(rng, 24000 if thorough else 2500, 80 if thorough else 12))
     rep.rule = ('random tables of 2..N strictly monotone positive wavelengths (both orders, spacing 1e-6..1e5 A), values with zeros, '
                 'negatives and zero ends, keep_neg both, SourceSpectrum and SpectralElement; queries: knots, their binary64 '
-                'neighbours, midpoints, random interior points, points just and far outside; taper() with and without '
+                'neighbours, midpoints, random interior points, points just and far outside; taper() of the table and of the composite table x k, with and without '
                 'explicit wavelengths; force_extrapolation. Non-trivial: every case (each has >= 2 knots and >= 8 queries).')
 
     def tags(c, o):
